@@ -234,6 +234,9 @@ func SetForm(r *http.Request, query, body url.Values, bad bool) {
 
 func VerifModel_zzverif_SetForm(r *http.Request, query, body url.Values, bad bool) {
 	formTable[r] = &formEntry{query, body, bad}
+	// the raw query is the (registered) encoding of the query parameters, so that code reading
+	// req.URL.Query() directly sees the same values as req.Form's query part
+	r.URL.RawQuery = VerifModel_zzverif_MakeQuery(query)
 }
 
 func VerifModel_http_Request_ParseForm(r *http.Request) error {
